@@ -112,6 +112,49 @@ theorem C20_ready_only_if_resident (f : Nat) (b : Rbk) (answers : List (Option H
       · exact ⟨[], .restored, rr, rest, rfl, Or.inl rfl⟩
       · exact ⟨[], .unarchived, rr, rest, rfl, Or.inr rfl⟩
 
+/-- **offered as a source only when resident** the ready-pull task sets the ready flag (what `pull_ready` reports to
+    other daemons) exactly when its loop ended on a resident answer; an lfs failure, a vanished file or a refused restore
+    leave the copy not ready -/
+theorem C20_ready_pull_flag (f : Nat) (b : Rbk) (answers : List (Option HsmState × Option Bool)) (b' : Rbk)
+    (h : readyPullTask f b answers = (b', some true)) :
+    (∃ pre st rr post, answers = pre ++ (some st, rr) :: post ∧ (st = .restored ∨ st = .unarchived)) ∧
+    f ∉ b'.restoring ∧ f ∉ b'.started := by
+  unfold readyPullTask at h
+  cases hl : restoreLoop f b answers with
+  | mk b2 r =>
+    rw [hl] at h
+    cases r with
+    | none => simp at h
+    | some r =>
+      simp only [Prod.mk.injEq, Option.some.injEq, beq_iff_eq] at h
+      obtain ⟨hb, hr⟩ := h
+      subst hb
+      have hr' : r = .ready := by cases r <;> simp_all
+      subst hr'
+      have h2 : (restoreLoop f b answers).2 = some .ready := by rw [hl]
+      have hc := C20_loop_exit_clears f b answers .ready h2
+      rw [hl] at hc
+      exact ⟨C20_ready_only_if_resident f b answers h2, hc.1, hc.2.1⟩
+
+/-- **hashed only when resident** the HSM check task opens and hashes the file only after a resident answer -/
+theorem C20_check_hashes_only_resident (f : Nat) (b : Rbk) (ex : Option HsmState)
+    (answers : List (Option HsmState × Option Bool)) (h : (hsmCheckTask f b ex answers).2 = true) :
+    ex ≠ some .missing ∧
+    ∃ pre st rr post, answers = pre ++ (some st, rr) :: post ∧ (st = .restored ∨ st = .unarchived) := by
+  unfold hsmCheckTask at h
+  split at h
+  · simp at h
+  · rename_i hne
+    refine ⟨hne, ?_⟩
+    cases hl : restoreLoop f b answers with
+    | mk b2 r =>
+      rw [hl] at h
+      cases r with
+      | none => simp at h
+      | some r =>
+        cases r <;> simp at h
+        exact C20_ready_only_if_resident f b answers (by rw [hl])
+
 theorem C20_open_only_resident (st : Option HsmState) :
     hsmOpenOk st = true ↔ (st = some .restored ∨ st = some .unarchived) := by
   rcases st with _ | st
